@@ -166,7 +166,7 @@ func (in *Interp) eval(n *Node, f *Frame) (Value, ctl) {
 	case NIdent:
 		if n.Name == "self" {
 			if f.Fn != nil {
-				return Value{Kind: KFunc, Fn: f.Fn, S: f.Fn.Text}, cNone
+				return Value{Kind: KFunc, Fn: f.Fn, S: fnKey(f.Fn)}, cNone
 			}
 			return Err("identifier not found: self"), cNone
 		}
@@ -174,7 +174,7 @@ func (in *Interp) eval(n *Node, f *Frame) (Value, ctl) {
 			return in.unsup("info"), cNone
 		}
 		if f.Fn != nil && f.Fn.Name != "" && f.Fn.Name == n.Name {
-			return Value{Kind: KFunc, Fn: f.Fn, S: f.Fn.Text}, cNone
+			return Value{Kind: KFunc, Fn: f.Fn, S: fnKey(f.Fn)}, cNone
 		}
 		v, _, ok := f.lookup(n.Name)
 		if !ok {
@@ -256,7 +256,7 @@ func (in *Interp) eval(n *Node, f *Frame) (Value, ctl) {
 		return m, cNone
 	case NFunc:
 		cl := &Closure{Name: n.Name, Params: n.Params, Variadic: n.Variadic, Body: n.Body, Env: f, Text: funcText(n)}
-		v := Value{Kind: KFunc, Fn: cl, S: cl.Text}
+		v := Value{Kind: KFunc, Fn: cl, S: fnKey(cl)}
 		if n.Name != "" {
 			if r := in.assign(f, n.Name, v, false); r.IsErr() {
 				return r, cNone
@@ -311,6 +311,15 @@ func (in *Interp) evArg(n *Node, f *Frame) Value { return in.ev(n, f) }
 var extNames = map[string]bool{"abs": true, "keys": true, "str": true, "printf": true, "log2": true, "sprintf": true, "min": true, "max": true, "int": true,
 	"type": true, "eval": true, "json": true, "rand": true, "sleep": true, "save": true, "load": true, "split": true, "join": true, "format": true, "round": true,
 	"sin": true, "cos": true, "pow": true, "sqrt": true, "trim": true, "runes": true, "width": true, "defun": true, "unjson": true, "base64": true, "floor": true, "ceil": true}
+
+// fnKey is what two function values are compared by: the text and, for a named function, its name (func f(a) { 1 } and
+// (a) => 1 are two functions, as are func f and func g with the same body).
+func fnKey(cl *Closure) string {
+	if cl.Name != "" {
+		return "func " + cl.Name + cl.Text
+	}
+	return cl.Text
+}
 
 func funcText(n *Node) string {
 	var sb strings.Builder
